@@ -40,6 +40,8 @@ def run_history_case(rng, res: CaseResult, want, opts, feat=None, n_variants=3, 
         spec = S.gen_spec(rng, feat)
         roots = make_variants(rng, spec, rng.randint(2 if name_mode else 1, n_variants), feat, prefer_file_variants=name_mode)
     refs = [Ref(spec, r, parameter_mode=not name_mode) for r in roots]
+    if any(r.get('file_state') for r in roots):
+        res.count('histories_with_files_rewritten_in_place')
     if name_mode:
         for r_ in refs:
             seen_fp = set()
